@@ -167,8 +167,10 @@ static void apply(const Setup &S, Live &L, const Ev &e, uint64_t seed)
 			mcenv::cur = &cs;
 			L.v->KeyGenerationProtocol_PublishKey(pk);
 			mcenv::cur = nullptr;
-			expect = true;
 			ret = L.v->KeyGenerationProtocol_UpdateKey(pk);
+			// the property does not say whether a player must accept its own key again: either verdict is fine, but a
+			// refusal must leave the key set unchanged and an acceptance must multiply the key in (both checked below)
+			expect = ret;
 			if (ret) L.ref.own_echo = true;
 		}
 		else if (e.k == 'X')
